@@ -245,6 +245,13 @@ pub fn exercise_string(s: &str) -> (bool, Option<Fail>) {
             false
         },
     };
+    // a user-supplied type whose conversion maps every spelling to one canonical name (aliases:
+    // "crates" for cargo, "go" for golang): parsing with it returns a value or an error too, and
+    // its type string is valid, so printing is not the documented panic either
+    match guard("GenericPurl::<Alias>::from_str", || s.parse::<purl::GenericPurl<Alias>>().map(|p| p.to_string().len())) {
+        Out::Panic(m) => note(&mut fail, "GenericPurl::<Alias>::from_str", s, &m),
+        _ => {},
+    }
     // the same text as a combined name, a checksum text, a package type
     if s.len() < 4096 {
         if let Out::Panic(m) = guard("builder_with_combined_name", || {
@@ -325,6 +332,31 @@ impl KnownQualifierKey for GoodKey<'_> {
 impl<'a> From<GoodKey<'a>> for SmallString {
     fn from(v: GoodKey<'a>) -> Self {
         SmallString::from(v.0)
+    }
+}
+
+/// A user-supplied type that accepts every syntactically valid type string as an alias of
+/// one canonical type.
+#[derive(Clone)]
+struct Alias;
+
+impl std::str::FromStr for Alias {
+    type Err = ParseError;
+
+    fn from_str(_: &str) -> Result<Self, Self::Err> {
+        Ok(Alias)
+    }
+}
+
+impl PurlShape for Alias {
+    type Error = ParseError;
+
+    fn package_type(&self) -> Cow<str> {
+        Cow::Borrowed("canonical")
+    }
+
+    fn finish(&mut self, _parts: &mut PurlParts) -> Result<(), Self::Error> {
+        Ok(())
     }
 }
 
